@@ -15,7 +15,7 @@ from harness import common, nnd_corr, refmetrics
 from harness.common import INF_KEY, fmt
 
 COQ_FILES = ["model/Base.v", "model/Heap.v", "model/Rng.v", "model/Search.v", "proofs/ListAux.v", "proofs/HeapProofs.v",
-             "proofs/HeapTopK.v", "proofs/HeapArrays.v", "proofs/HeapSort.v", "proofs/C02Proofs.v"]
+             "proofs/HeapTopK.v", "proofs/HeapArrays.v", "proofs/HeapSort.v", "proofs/C02Proofs.v", "proofs/C02Term.v"]
 SENTINELS = {"pynndescent/pynndescent_.py": ["NNDescent._init_search_function", "NNDescent._init_sparse_search_function",
                                              "NNDescent.query", "NNDescent.prepare", "NNDescent._init_search_graph"],
              "pynndescent/utils.py": ["simple_heap_push", "deheap_sort", "has_been_visited", "mark_visited", "tau_rand_int"],
